@@ -249,6 +249,8 @@ type RestrictedPrefixPermutationIterator struct {
 
 	l []int
 	u []int
+
+	done bool
 }
 
 //RestrictedPrefixPermutations returns an iterator which iterates over all permutations a_1 a_2 ... a_n of {0, ..., n-1} which pass the tests f([]int{a_1}), f([]int{a_1,a_2}) ... f([]int{a_1,...,a_n}).
@@ -275,7 +277,10 @@ func (iter *RestrictedPrefixPermutationIterator) Next() bool {
 	q := 0
 
 	//Initialise
-	if iter.a == nil {
+	if iter.done {
+		//We have backtracked out of the first position. There is nothing left to undo.
+		return false
+	} else if iter.a == nil {
 		//The first call of Next()
 		iter.a = make([]int, n)
 		k = 0
@@ -316,6 +321,7 @@ x5:
 x6:
 	k--
 	if k < 0 {
+		iter.done = true
 		return false
 	}
 	p = iter.u[k]
